@@ -187,6 +187,25 @@ theorem documented_names_pass_expression_test :
     docFunctionGroups.all (fun g => g.all looksLikeExpression) = true := by
   constructor <;> decide +kernel
 
+/-- **a comma announces a search root only inside the root list**: when `next_lexem` returns a comma and leaves the
+    `possible_search_root` flag set — the flag that, in a query passed as several shell words, makes the next word a path up
+    to the end of its shell word (D01) — the lexer is after FROM and has seen neither WHERE nor a BY: the commas of the
+    select list, of a condition, of GROUP BY and of ORDER BY never set it (D81 fix: without a WHERE clause the commas of
+    GROUP BY / ORDER BY did, and the split form of `order by is_dir, length(name)` ordered by a constant).  By functional
+    induction over the lexer's `nextLexem`, every token class and keyword. -/
+theorem comma_announces_root_only_in_root_list (st st' : LexSt)
+    (h : nextLexem st = (some .comma, st')) (hp : st'.psr = true) :
+    st'.beforeFrom = false ∧ st'.afterWhere = false ∧ st'.afterBy = false := by
+  fun_induction nextLexem st
+  all_goals (try (simp_all; done))
+  all_goals (try (simp +zetaDelta at h; done))
+  all_goals (try (split at h <;> simp +zetaDelta at h; done))
+  simp +zetaDelta at h
+  subst h
+  have h1 : (Lexem.comma == Lexem.from_) = false := by decide
+  simp [h1] at hp
+  exact ⟨hp.1.1.2, hp.1.2, hp.2⟩
+
 /-! ### quoted literals at the lexer -/
 
 /-- **a quoted literal is one `String` token, whatever it contains** — blanks, commas, brackets, operators,
